@@ -222,16 +222,17 @@ def check_image(data, model, api_iso, counters):
                 if bit[fkey] != want[fkey]:
                     vio.append({'key': 'bit:%s:stored' % short, 'detail': 'boot info table %s = %d expected %d' % (fkey, bit[fkey], want[fkey])})
             counters['bit_checked'] = counters.get('bit_checked', 0) + 1
-            # as read back through the API (any name)
-            names = model.names_of(ex['cid'])
-            if names and api_iso is not None:
-                ns, p = names[0]
-                import io
+        if c.bit and a == b and api_iso is not None:
+            # as read back through the API: under every name in every namespace, and for files too
+            # short to hold the whole table (it is cut at the end of the file)
+            import io
+            for ns, p in model.names_of(ex['cid']):
                 buf = io.BytesIO()
                 try:
                     api_iso.get_file_from_iso_fp(buf, **{'%s_path' % ns: p})
+                    counters['bit_api_reads'] = counters.get('bit_api_reads', 0) + 1
                     if buf.getvalue() != on_disc:
-                        vio.append({'key': 'bit:api', 'detail': '%s read through the API differs from the stored bytes' % p})
+                        vio.append({'key': 'bit:api' if ns == 'iso' else 'bit:api:%s' % ns, 'detail': '%s read through the API (%d bytes) differs from the %d stored bytes' % (p, len(buf.getvalue()), len(on_disc))})
                 except Exception as e:
                     vio.append({'key': 'bit:api-raises:%s' % type(e).__name__, 'detail': str(e)})
     # catalog reachable as a file with identical bytes
